@@ -105,21 +105,21 @@ Qed.
 
 (* file_trasher.py: "failed" is returned only from the state in which nothing was moved *)
 Lemma W_try_candidates volume : forall cs failures,
-  W (try_candidates cs o path volume failures) (fun s' ok => ok = false -> s' = false).
+  W (try_candidates cs o path volume failures) (fun s' ok => s' = ok).
 Proof.
   induction cs as [|c cs IH]; intros failures; cbn [try_candidates].
   - apply W_bind; [apply (safe_describe KL KL_plain)|]. intros d.
     unfold W. apply wp_bind. apply W_log. apply wp_bind.
     eapply wp_mono; [| |apply (safe_log_failures KL KL_plain path (rev failures))]; [|auto].
-    intros s a [Hs _]. apply wp_ret. intros _. exact Hs.
+    intros s a [Hs _]. apply wp_ret. exact Hs.
   - unfold W. apply wp_bind. apply W_log. apply wp_bind.
     eapply wp_mono; [| |apply (W_trash_file_in c volume)]; [|auto].
     intros s r Hr. destruct r as [why|].
     + subst s. apply IH.
-    + apply wp_bind. apply W_log. apply wp_ret. discriminate.
+    + subst s. apply wp_bind. apply W_log. apply wp_ret. reflexivity.
 Qed.
 
-Lemma W_trash_file : W (trash_file path o) (fun s' ok => ok = false -> s' = false).
+Lemma W_trash_file : W (trash_file path o) (fun s' ok => s' = ok).
 Proof.
   unfold trash_file. apply W_bind.
   - destruct (po_forced_volume o) as [[|c x]|]; try apply (safe_volume_of_parent KL KL_plain). apply (T_ret KL). exact I.
@@ -132,20 +132,142 @@ Proof.
   apply W_bind; [apply (safe_describe KL KL_plain)|]. intros d. unfold W. apply wp_bind. apply W_log. apply wp_ret. auto.
 Qed.
 
+Lemma W_trash_file' : W (trash_file path o) (fun s' ok => ok = false -> s' = false).
+Proof. eapply wp_mono; [| |apply W_trash_file]; [intros s a E Ea; cbv beta in E; rewrite E; exact Ea|auto]. Qed.
+
 Lemma W_trash_single : W (trash_single path o) (fun s' ok => ok = false -> s' = false).
 Proof.
   unfold trash_single. destruct (should_skipped_by_specs path); [apply W_report|].
   apply W_bind; [apply (T_call_bool KL); exact I|]. intros e. destruct e; simpl.
   2:{ destruct (po_mode o); try apply W_report. apply wp_ret. discriminate. }
   apply W_bind; [apply (T_call_bool KL); exact I|]. intros acc.
-  destruct (po_mode o) eqn:Em; try apply W_trash_file.
-  destruct acc; [|apply W_trash_file].
+  destruct (po_mode o) eqn:Em; try apply W_trash_file'.
+  destruct acc; [|apply W_trash_file'].
   apply W_bind; [apply (safe_describe KL KL_plain)|]. intros d.
   apply W_bind.
   { apply (T_catch KL); [apply (T_call_str KL); exact I|]. intros e q He. destruct e; inversion He. apply (T_ret KL). exact I. }
-  intros reply. destruct (parse_user_reply reply); [apply W_trash_file|apply wp_ret; discriminate].
+  intros reply. destruct (parse_user_reply reply); [apply W_trash_file'|apply wp_ret; discriminate].
 Qed.
 End One.
+
+(* ---- and success is honest too: the procedure returns "done" only when a move returned normally, or the argument was excused:
+   it does not exist and -f was given, or the user was asked about it (and did not say yes) ---- *)
+Definition flags := (bool * bool)%type.          (* (some lexists answered "absent", the user was asked) *)
+Definition fstep (f : flags) (o : op) (r : res) : flags :=
+  match o, r with
+  | Lexists _, RBool false => (true, snd f)
+  | Input _, _ => (fst f, true)
+  | _, _ => f
+  end.
+Definition pstep (s : bool * flags) (o : op) (r : res) : option (bool * flags) :=
+  match mstep (fst s) o r with Some m' => Some (m', fstep (snd s) o r) | None => None end.
+
+Lemma wp_product {A} (m : prog A) : forall (Q : bool -> A -> Prop) (E : bool -> exn -> Prop) s f,
+  wp mstep m Q E s -> wp pstep m (fun s' a => Q (fst s') a) (fun s' e => E (fst s') e) (s, f).
+Proof.
+  induction m as [a|e|o k IH]; intros Q E s f H; [exact H|exact H|].
+  assert (H' : forall r, valid_res o r = true -> exists s', mstep s o r = Some s' /\ wp mstep (k r) Q E s') by exact H.
+  change (forall r, valid_res o r = true -> exists s', pstep (s, f) o r = Some s' /\
+            wp pstep (k r) (fun s' a => Q (fst s') a) (fun s' e => E (fst s') e) s').
+  intros r Hv. destruct (H' r Hv) as [s1 [Hs Hw]]. exists (s1, fstep f o r). split; [unfold pstep; simpl; rewrite Hs; reflexivity|].
+  apply IH. exact Hw.
+Qed.
+
+Section Honest.
+Variable o : put_opts.
+Variable path : str.
+Definition excused (s : bool * flags) : Prop :=
+  fst s = true \/ (fst (snd s) = true /\ po_mode o = ModeForce) \/ (snd (snd s) = true /\ po_mode o = ModeInteractive).
+Notation P m Q s := (wp pstep m Q (fun _ _ => True) s).
+
+(* a part that moves nothing, in the product monitor: the first component stays false *)
+Lemma P_of_keeps {A} (m : prog A) (Q : A -> Prop) f (Q' : bool * flags -> A -> Prop) :
+  T KL m Q -> (forall f' a, Q a -> Q' (false, f') a) -> P m Q' (false, f).
+Proof.
+  intros H HQ. eapply wp_mono; [| |apply (wp_product m _ _ false f H)]; [|auto].
+  intros [s1 f'] a [Hs Ha]. simpl in Hs. subst s1. apply HQ. exact Ha.
+Qed.
+Lemma P_bind_keeps {A B} (m : prog A) (k : A -> prog B) f (Q : bool * flags -> B -> Prop) :
+  T KL m (fun _ => True) -> (forall f' a, P (k a) Q (false, f')) -> P (bind m k) Q (false, f).
+Proof. intros Hm Hk. apply wp_bind. apply (P_of_keeps m (fun _ => True)); [exact Hm|]. intros f' a _. apply Hk. Qed.
+
+Lemma P_report f : P (d <- describe path ;; log WARNING true ($"cannot trash " ++ d ++ $" '" ++ path ++ $"'") ;;; Ret false)
+                     (fun s' ok => ok = true -> excused s') (false, f).
+Proof.
+  apply P_bind_keeps; [apply (safe_describe KL KL_plain)|]. intros f' d. apply wp_bind.
+  unfold log, call_unit. apply wp_bind. apply wp_call. intros r Hv. eexists. split; [reflexivity|].
+  destruct r; simpl; try exact I; apply wp_ret; apply wp_ret; discriminate.
+Qed.
+
+Lemma P_trash_file f : P (trash_file path o) (fun s' ok => ok = true -> excused s') (false, f).
+Proof.
+  eapply wp_mono; [| |apply (wp_product _ _ _ false f (W_trash_file o path))]; [|auto].
+  intros [s1 f'] ok E Hok. simpl in E. left. simpl. rewrite E. exact Hok.
+Qed.
+
+Lemma P_trash_single : P (trash_single path o) (fun s' ok => ok = true -> excused s') (false, (false, false)).
+Proof.
+  unfold trash_single. destruct (should_skipped_by_specs path); [apply P_report|].
+  apply wp_bind. apply wp_call_bool. intros r Hv. destruct r as [|e| | | | | |]; try discriminate Hv.
+  eexists. split; [reflexivity|]. destruct e; simpl.
+  2:{ destruct (po_mode o) eqn:Em; try apply P_report. apply wp_ret. intros _. right. left. split; [reflexivity|exact Em]. }
+  apply wp_bind. apply wp_call_bool. intros r Hv2. destruct r as [|acc| | | | | |]; try discriminate Hv2.
+  eexists. split; [reflexivity|]. simpl.
+  destruct (po_mode o) eqn:Em; try apply P_trash_file.
+  destruct acc; [|apply P_trash_file].
+  apply P_bind_keeps; [apply (safe_describe KL KL_plain)|]. intros f' d.
+  apply wp_bind. apply wp_catch. apply wp_call_str. intros r Hv3.
+  assert (Hasked : forall reply f2, snd f2 = true ->
+            P (if parse_user_reply reply then trash_file path o else Ret true) (fun s' ok => ok = true -> excused s') (false, f2)).
+  { intros reply f2 Hf2. destruct (parse_user_reply reply); [apply P_trash_file|].
+    apply wp_ret. intros _. right. right. split; [exact Hf2|exact Em]. }
+  destruct r as [| |reply| | | | |e]; try discriminate Hv3.
+  - eexists. split; [reflexivity|]. simpl. apply Hasked. reflexivity.
+  - eexists. split; [reflexivity|]. simpl. destruct e; try exact I. apply wp_ret. apply Hasked. reflexivity.
+Qed.
+End Honest.
+
+Lemma fstep_absent f o r : fst (fstep f o r) = true -> fst f = true \/ exists q, o = Lexists q /\ r = RBool false.
+Proof. destruct o; simpl; auto. destruct r as [|[|]| | | | | |]; simpl; eauto. Qed.
+Lemma fstep_asked f o r : snd (fstep f o r) = true -> snd f = true \/ exists p, o = Input p.
+Proof. destruct o; simpl; auto; try solve [destruct r as [|[|]| | | | | |]; simpl; auto]. eauto. Qed.
+Lemma mstep_moved s o r m1 : mstep s o r = Some m1 -> m1 = true -> s = true \/ exists src dst, o = Move src dst /\ r = RUnit.
+Proof.
+  intros H E. subst m1. destruct s; [left; reflexivity|]. right. destruct o; simpl in H; try discriminate.
+  destruct r; try discriminate. eauto.
+Qed.
+
+Lemma paccepts t : forall s s', accepts pstep s t = Some s' ->
+  (fst s' = true -> fst s = true \/ exists src dst, In (Move src dst, RUnit) t) /\
+  (fst (snd s') = true -> fst (snd s) = true \/ exists q, In (Lexists q, RBool false) t) /\
+  (snd (snd s') = true -> snd (snd s) = true \/ exists p r, In (Input p, r) t).
+Proof.
+  induction t as [|[o r] t IH]; intros s s' H; simpl in H.
+  - inversion H; subst. auto.
+  - unfold pstep in H at 1. destruct (mstep (fst s) o r) as [m1|] eqn:Em; [|discriminate].
+    destruct (IH _ _ H) as [H1 [H2 H3]]. simpl in H1, H2, H3. repeat split.
+    + intros Hs. destruct (H1 Hs) as [E|[src [dst Hin]]]; [|right; exists src, dst; right; exact Hin].
+      destruct (mstep_moved _ _ _ _ Em E) as [E1|[src [dst [Eo Er]]]]; [left; exact E1|]. subst. right. exists src, dst. left. reflexivity.
+    + intros Hs. destruct (H2 Hs) as [E|[q Hin]]; [|right; exists q; right; exact Hin].
+      destruct (fstep_absent _ _ _ E) as [E1|[q [Eo Er]]]; [left; exact E1|]. subst. right. exists q. left. reflexivity.
+    + intros Hs. destruct (H3 Hs) as [E|[p [r0 Hin]]]; [|right; exists p, r0; right; exact Hin].
+      destruct (fstep_asked _ _ _ E) as [E1|[p Eo]]; [left; exact E1|]. subst. right. exists p, r. left. reflexivity.
+Qed.
+
+Theorem successful_argument_was_moved_or_excused_lemma path o :
+  all_runs (fun t out => out = Done true ->
+      (exists src dst, In (Move src dst, RUnit) t) \/
+      (po_mode o = ModeForce /\ exists q, In (Lexists q, RBool false) t) \/
+      (po_mode o = ModeInteractive /\ exists p r, In (Input p, r) t)) (trash_single path o).
+Proof.
+  generalize (wp_sound pstep _ _ _ _ (P_trash_single o path)). apply all_runs_mono.
+  intros t out [s' [Ha Ho]] Eo. subst out. specialize (Ho eq_refl).
+  destruct (paccepts t _ _ Ha) as [H1 [H2 H3]]. simpl in H1, H2, H3.
+  destruct Ho as [Hm|[[Hf Hmode]|[Hq Hmode]]].
+  - left. destruct (H1 Hm) as [E|H]; [discriminate E|exact H].
+  - right. left. split; [exact Hmode|]. destruct (H2 Hf) as [E|H]; [discriminate E|exact H].
+  - right. right. split; [exact Hmode|]. destruct (H3 Hq) as [E|H]; [discriminate E|exact H].
+Qed.
 
 (* the single-argument procedure returns "failed" only in runs without a move that returned normally *)
 Theorem failed_argument_was_not_moved_lemma path o :
